@@ -10,7 +10,7 @@ PROPS = ('C06',)
 
 def configs(tier):
     q = tier == 'quick'
-    cs = [('verify_delegation:junk', 'j2', dict(R=2, M=1, N=1, junk=True), dict(relational=True), ('accepts', 'rejects:SignatureError', 'rejects:MetadataVerificationError'), 300)]
+    cs = [('verify_delegation:junk', 'j2', dict(R=2, M=1, N=1, junk=True, u_timestamp=True), dict(relational=True), ('accepts', 'rejects:SignatureError', 'rejects:MetadataVerificationError'), 300)]
     if not q:
         cs.append(('verify_delegation:junk:N2', 'j22', dict(R=2, M=2, N=2, junk=True), dict(relational=True), ('accepts',), 800))
     return cs
